@@ -4,7 +4,8 @@
  *
  * usage: conc <dbdir> <workload-seed> <sched-seed> <mode:0 random|1 pct> <writers> <readers> <ops> <valsize> <flags>
  *   flags: bit0 sync writes mixed in, bit1 a compaction thread, bit2 snapshot readers, bit3 batches with marker keys,
- *          bit4 iterator readers, bit5 one write in four carries a 140-340 KB value (group-commit size limit)
+ *          bit4 iterator readers, bit5 one write in four carries a 140-340 KB value (group-commit size limit),
+ *          bit6 one write(2) to the log fails with EIO (background error: every later write fails, waiters must still be woken)
  * Output (stdout):
  *   thr <tid> <role> <index>
  *   inv <tid> <n> <op> <args> @<step>        ret <tid> <n> <result> @<step>
@@ -25,6 +26,7 @@
 #include <sys/syscall.h>
 #include <fcntl.h>
 #include <stdarg.h>
+#include <errno.h>
 static int g_logfd = -1; static long g_loglen = 0, g_logsynced = 0;
 int open(const char *path, int flags, ...) {
   mode_t mode = 0; int fd; size_t n = strlen(path);
@@ -38,8 +40,11 @@ int open64(const char *path, int flags, ...) {
   if (flags & O_CREAT) { va_list ap; va_start(ap, flags); mode = va_arg(ap, int); va_end(ap); }
   return open(path, flags, mode);
 }
+static long g_fail_log_write = -1, g_log_writes = 0;   /* flag bit6: the k-th write(2) to a log fails with EIO */
 ssize_t write(int fd, const void *buf, size_t n) {
-  ssize_t r = syscall(SYS_write, fd, buf, n);
+  ssize_t r;
+  if (fd == g_logfd && g_fail_log_write >= 0 && g_log_writes++ == g_fail_log_write) { errno = EIO; return -1; }
+  r = syscall(SYS_write, fd, buf, n);
   if (fd == g_logfd && r > 0) g_loglen += r;
   return r;
 }
@@ -223,6 +228,7 @@ int main(int argc, char **argv) {
   rc = ldb_open(argv[1], &opt, &g_db);
   if (rc != LDB_OK) { printf("open-failed %d\n", rc); return 2; }
   printf("thr %d main 0\n", sched_self());
+  if (g_flags & 64) { g_log_writes = 0; g_fail_log_write = (long)(rnd_at(9, 9, 9) % 14); }
   g_tracing = 1;
   for (i = 0; i < g_nw; i++) ldb_thread_create(&th[nthreads++], writer_thread, (void *)(intptr_t)i);
   for (i = 0; i < g_nr; i++) ldb_thread_create(&th[nthreads++], reader_thread, (void *)(intptr_t)i);
